@@ -19,6 +19,8 @@ class RedisServer(object):
         self.expiry = {}      # key -> absolute virtual time
         self.next_client = 1
         self.tracking = {}    # client id -> redirect client id
+        self.noloop = set()   # tracking clients that asked not to be told about their own modifications
+        self.writer = None    # client of the command being executed
         self.tracked = {}     # key -> set(client ids that read it while tracking)
         self.subs = {}        # channel -> list of (client id, callable(message) or None, pubsub)
         self.scan_page = scan_page
@@ -45,7 +47,7 @@ class RedisServer(object):
             if key in self.data:
                 del self.data[key]
                 self.stats["expired"] += 1
-                self._touched(key)
+                self._touched(key, by_expiry=True)
 
     def _get(self, key, kind=None):
         self._expire_now(key)
@@ -61,7 +63,7 @@ class RedisServer(object):
         if client in self.tracking:
             self.tracked.setdefault(key, set()).add(client)
 
-    def _touched(self, key):
+    def _touched(self, key, by_expiry=False):
         """A key was modified/deleted/expired: invalidate every client that tracked it (once)."""
         clients = self.tracked.pop(key, None)
         if not clients:
@@ -69,6 +71,10 @@ class RedisServer(object):
         for c in sorted(clients):
             target = self.tracking.get(c)
             if target is None:
+                continue
+            if c in self.noloop and not by_expiry and c == self.writer:
+                # CLIENT TRACKING ... NOLOOP: no notification for keys modified by this connection itself
+                self.stats["invalidations_suppressed_noloop"] = self.stats.get("invalidations_suppressed_noloop", 0) + 1
                 continue
             self.stats["invalidations_queued"] += 1
             if self.inval_sink is not None:
@@ -79,6 +85,7 @@ class RedisServer(object):
 
     def _cmd(self, name, client):
         self.stats["commands"] += 1
+        self.writer = client
         if self.fail_next and self.fail_next[0] == name:
             self.fail_next.pop(0)
             self.stats["faults"] += 1
@@ -269,19 +276,30 @@ class RedisServer(object):
     def drop_client(self, client):
         """The connection is gone (process died or closed it)."""
         self.tracking.pop(client, None)
+        self.noloop.discard(client)
         for k in list(self.tracked):
             self.tracked[k].discard(client)
             if not self.tracked[k]:
                 del self.tracked[k]
 
-    def client_tracking(self, client, on, redirect=None):
+    def client_tracking(self, client, on, redirect=None, options=()):
         self._cmd("CLIENT", client)
         if int(self.version.split(".")[0]) < 6:
             raise RedisError("ERR Unknown subcommand or wrong number of arguments for 'TRACKING'. Try CLIENT HELP")
+        for o in options:
+            if o in ("BCAST", "OPTIN", "OPTOUT", "PREFIX"):
+                raise RedisError("ERR CLIENT TRACKING %s is not modelled by this simulated server" % o)
+            if o != "NOLOOP":
+                raise RedisError("ERR syntax error")
         if on:
             self.tracking[client] = redirect
+            if "NOLOOP" in options:
+                self.noloop.add(client)
+            else:
+                self.noloop.discard(client)
         else:
             self.tracking.pop(client, None)
+            self.noloop.discard(client)
             for k in list(self.tracked):
                 self.tracked[k].discard(client)
                 if not self.tracked[k]:
